@@ -162,15 +162,6 @@ func (g gctx[E, S]) mkValue(elems []E) (*mat.ModuleValuedMatrix[E, S], error) {
 	return mod.NewRowMajor(elems...)
 }
 
-// mkVV wraps group elements as a verification vector the way a receiver of wire data does (no MSP at hand).
-func (g gctx[E, S]) mkVV(elems []E) (*feldman.VerificationVector[E, S], error) {
-	v, err := g.mkValue(elems)
-	if err != nil {
-		return nil, err
-	}
-	return feldman.NewVerificationVector(v, nil)
-}
-
 // applyLib mirrors model.applyExp on group elements.
 func (g gctx[E, S]) applyLib(elems []E, ed vvEdit) []E {
 	out := slices.Clone(elems)
